@@ -13,7 +13,7 @@ except ImportError:  # pragma: no cover
 
 from ..fold import CannotFold, Folder
 from ..model import AnchorError, Program, dotted, last_attr, norm, parent, walk_no_nested
-from ..report import Check
+from ..report import Check, guard
 from .common import calls_in, need_locals, returns_of
 
 # CPython: Objects/unicodeobject.c (PyUnicode_Format) and bytesobject.c (_PyBytes_FormatEx)
@@ -403,9 +403,9 @@ def r17_6(prog: Program, chk: Check) -> None:
 
 
 def run(prog: Program, chk: Check) -> None:
-    r17_1(prog, chk)
-    r17_2(prog, chk)
-    r17_3(prog, chk)
-    r17_4(prog, chk)
-    r17_5(prog, chk)
-    r17_6(prog, chk)
+    guard(chk, r17_1, prog, chk)
+    guard(chk, r17_2, prog, chk)
+    guard(chk, r17_3, prog, chk)
+    guard(chk, r17_4, prog, chk)
+    guard(chk, r17_5, prog, chk)
+    guard(chk, r17_6, prog, chk)
